@@ -1,7 +1,7 @@
 (** C06 — assembly: the leaf facts for every class, and the theorems in the form Props/C06.v
     states them. *)
 From Coq Require Import ZArith List Bool Lia ZifyBool Btauto.
-From SpyneV Require Import C06.Spec C06.LeafProofs C06.SeqProofs C06.StructProofs C06.Closure C06.ClosureProofs.
+From SpyneV Require Import Base.DigitsProofs C06.Spec C06.Docs C06.LeafProofs C06.SeqProofs C06.StructProofs C06.AgreeProofs C06.Closure C06.ClosureProofs.
 Import ListNotations.
 Open Scope Z_scope.
 
@@ -291,3 +291,76 @@ Section LeafAgree.
     intros Hb Hwf Hl. rewrite (bool_xsd_spec pat olex st s Hb Hwf), (bool_soft_spec ord st nil s Hb Hwf), Hl. reflexivity.
   Qed.
 End LeafAgree.
+
+
+(* ------------------------------------------------------------------ verdict agreement on whole documents *)
+Section Canon.
+  Variable pat : text -> option re.
+  Variable olex : okind -> text -> option Z.
+  Variable ord : okind -> text -> out Z.
+
+  (** leaf contents for which the agreement of the two validators is PROVED: the decimal text of
+      any integer (no total_digits, within max_str_len), any text of a string member (not the
+      empty element when the member has a default; anyURI without blanks at the ends), the
+      xs:boolean literals *)
+  Definition la_canon (st : stype) (nil : bool) (dflt txt : option text) : bool :=
+    match st_base st, txt with
+    | BInt _, Some s =>
+        xs_integer s && text_eqb s (str_int (den_integer s))
+        && is_none (fa_total_digits (st_fa st)) && ext_leb (Fin (len s)) (fa_max_str_len (st_fa st))
+    | BStr uri, _ =>
+        (is_none dflt || match txt with Some (_ :: _) => true | _ => false end)
+        && (negb uri || match txt with Some s => text_eqb (xs_trim s) s | None => true end)
+    | BBool, Some s => xs_bool_lit olex s
+    | _, _ => false
+    end.
+
+  Lemma la_canon_agree U : patterns_known pat U -> forall st nil d txt,
+    In (DLeaf st) (tys_of U) -> wf_stype st = true -> la_canon st nil d txt = true ->
+    st_elem_ok pat olex st d txt = is_ok (soft_leaf ord st nil txt).
+  Proof.
+    intros Hpat st nil d txt Hin Hwf Hla. unfold la_canon in Hla. destruct (st_base st) as [k|uri| | |k] eqn:Hb; try discriminate.
+    - destruct txt as [s|]; [|discriminate]. split_all.
+      match goal with H : text_eqb s _ = true |- _ => apply text_eqb_true_eq in H; rename H into Hs end.
+      assert (Hne : s <> []).
+      { rewrite Hs. unfold str_int. destruct (den_integer s <? 0) eqn:E; [discriminate|].
+        apply Base.DigitsProofs.str_nat_nonempty. lia. }
+      assert (He : st_elem_ok pat olex st d (Some s) = st_simple_ok pat olex st s) by (destruct s; [contradiction|destruct d; reflexivity]).
+      rewrite He, Hs. apply (int_leaf_agree pat olex ord st k nil (den_integer s) Hb Hwf).
+      + apply is_none_true. assumption.
+      + rewrite <- Hs. assumption.
+    - apply andb_prop in Hla. destruct Hla as [H1 H2].
+      assert (He : st_elem_ok pat olex st d txt = st_elem_ok pat olex st None txt).
+      { destruct d as [d0|]; [|reflexivity]. cbn [is_none orb] in H1. destruct txt as [[|c r]|]; try discriminate. reflexivity. }
+      rewrite He. apply (str_leaf_agree pat olex ord st uri nil txt Hb Hwf).
+      + intros p r Hp. eapply Hpat; eassumption.
+      + intros ->. cbn [negb orb] in H2. destruct txt; [apply text_eqb_true_eq; exact H2|exact I].
+    - destruct txt as [s|]; [|discriminate].
+      assert (Hne : s <> []) by (intros ->; discriminate Hla).
+      assert (He : st_elem_ok pat olex st d (Some s) = st_simple_ok pat olex st s) by (destruct s; [contradiction|destruct d; reflexivity]).
+      rewrite He. apply bool_leaf_agree; assumption.
+  Qed.
+
+  (** for a document that uses only declared members in declared order (with leaf contents as
+      above), validity against the schema and soft validation reach the same verdict *)
+  Theorem doc_verdicts_agree (U : univ) (S : schema) :
+    wf_univ U = true -> resolves S U -> patterns_known pat U ->
+    forall n c cl e m,
+      get_klass U c = Some cl ->
+      match e with XElt ns name atts _ _ => text_eqb ns (k_ns cl) && text_eqb name (k_name cl) && negb (is_nil_att atts) | XOther => false end = true ->
+      ddoc U la_canon n (DRef c) false None e = true ->
+      (n + length U < m)%nat ->
+      valid_doc pat olex m S e = is_ok (soft U ord n (DRef c) true e).
+  Proof.
+    intros Hwf Hres Hpat n c cl e m Hc Hroot Hdoc Hm.
+    destruct e as [ns name atts txt kids|]; [|discriminate Hroot].
+    apply andb_prop in Hroot. destruct Hroot as [Hroot Hnn]. apply andb_prop in Hroot. destruct Hroot as [Hns Hname].
+    apply text_eqb_true_eq in Hns. apply text_eqb_true_eq in Hname. subst ns name. apply negb_true_iff in Hnn.
+    unfold valid_doc. destruct (rs_elem S U Hres c cl Hc) as (d & Hd & Ha). rewrite Hd, Ha.
+    assert (Hq : type_qn U (DRef c) = (k_ns cl, k_name cl)) by (cbn; apply klass_qn_get; exact Hc).
+    rewrite <- Hq.
+    rewrite (verdicts_agree pat olex ord U S la_canon Hwf Hres (la_canon_agree U Hpat) n (DRef c) false None _
+               ltac:(cbn; apply nth_error_Some; unfold get_klass in Hc; congruence) Hdoc m Hm).
+    destruct n as [|k]; [reflexivity|]. cbn [soft]. rewrite Hnn. reflexivity.
+  Qed.
+End Canon.
